@@ -107,6 +107,7 @@ def _verify_worker(args):
 
 class Context(object):
     def __init__(self, pid, tier, seed):
+        self.assumed_callees = {}       # callee contract name -> 'assumed: <note>' (unchecked in this run)
         self.pid = pid
         self.tier = tier
         self.seed = seed
@@ -143,6 +144,9 @@ class Context(object):
                 continue
             self.functions.append({k: v for k, v in s.items()
                                    if k not in ('non_discharged', 'obligation_names', 'samples')})
+            for cname, how in (s.get('callee_contracts_used') or {}).items():
+                if how.startswith('assumed'):
+                    self.assumed_callees.setdefault(cname, how)
             if keep is not None:
                 dropped = [n for n in s['obligation_names'] if not keep(ident, n)]
                 nd = sum(s['obligation_names'][n] for n in dropped)
@@ -318,7 +322,8 @@ def finish(ctx, level_if_proved='proof', checker_cmd='', replayers=None):
     ev = {
         'property_id': pid, 'tier': ctx.tier, 'seed': ctx.seed, 'level': level,
         'coverage': coverage,
-        'assumptions': ctx.assumptions,
+        'assumptions': ctx.assumptions + ['assumed contract on a callee (not verified here): %s -- %s' % (k, v)
+                                          for k, v in sorted(ctx.assumed_callees.items())],
         'wall_s': round(time.time() - ctx.t0, 2),
         'violations': len(violations),
         'known_findings_reported': sorted(printed),
